@@ -8,6 +8,7 @@ import (
 	"reflect"
 	"sort"
 	"strings"
+	"sync/atomic"
 	"text/scanner"
 	"unicode/utf8"
 
@@ -22,13 +23,13 @@ func init() { register(&profile{id: "C15", num: 15, name: "entrypoints", run: ru
 
 // capAbort is set when a call was cut off by a logical step cap that no clause of the running
 // profile is about (C15, C09): the run is then discarded, never judged.
-var capAbort bool
+var capAbort atomic.Bool
 
 func call(f func() (interface{}, error)) (r callResult) {
 	defer func() {
 		if p := recover(); p != nil {
 			if ce, ok := p.(simrt.CapExceeded); ok {
-				capAbort = true
+				capAbort.Store(true)
 				r = callResult{Panic: fmt.Sprintf("step cap exceeded after %d steps", ce.Steps)}
 				return
 			}
@@ -108,8 +109,8 @@ func tokenEnds(toks []lexer.Token) []int {
 
 func runEntrypoints(rc *RunCtx) *Violation {
 	var v *Violation
-	capAbort = false
-	defer func() { capAbort = false }()
+	capAbort.Store(false)
+	defer func() { capAbort.Store(false) }()
 	simrt.RunInline(func() {
 		base := simrt.Depth()
 		simrt.OpBegin(20000000) // no clause depends on it; it only keeps a pathological parse from stalling the batch
@@ -121,7 +122,7 @@ func runEntrypoints(rc *RunCtx) *Violation {
 		steps, _, _ := simrt.OpEnd(base)
 		rc.agg.SimSteps += steps
 	})
-	if capAbort {
+	if capAbort.Load() {
 		rc.agg.Discarded++
 		return nil
 	}
